@@ -246,6 +246,7 @@ func c16CheckReads(out *vlib.Out, c *c16ReadCase, outs []c16ReadOut, useOracle b
 	var bounds []int // stream position of each reported error, in order (direct mode)
 	ended := false
 	hbEqual := false
+	lastErrData := 0 // bytes of the message that came together with the closing error (heartbeat mode)
 	for _, it := range c.items {
 		if ended {
 			break
@@ -265,6 +266,9 @@ func c16CheckReads(out *vlib.Out, c *c16ReadCase, outs []c16ReadOut, useOracle b
 			}
 			if !fits || it.err != "-" {
 				ended = true // the connection closes after this message
+				if fits && !bytes.Equal(it.b, c.hb) {
+					lastErrData = len(it.b)
+				}
 			}
 			continue
 		}
@@ -283,29 +287,51 @@ func c16CheckReads(out *vlib.Out, c *c16ReadCase, outs []c16ReadOut, useOracle b
 	}
 	complete := len(outs) == len(c.sizes) && nonEmpty >= len(full)+len(c.items)+2 // the generators append enough non-empty reads
 	fail := func(sig, what string) { out.OracleFail(sig, what, replay) }
+	target := full
 	switch {
-	case bytes.HasPrefix(full, delivered) && (!complete || len(delivered) == len(full)):
-		// lossless, ordered
-	case hbEqual && bytes.HasPrefix(withoutHbEqual, delivered) && (!complete || len(delivered) == len(withoutHbEqual)):
-		fail(c16SigHB, fmt.Sprintf("an application message byte-equal to the heartbeat payload (%d bytes) is swallowed by the heartbeat receive filter: reader got %d of %d bytes", len(c.hb), len(delivered), len(full)))
-		full = withoutHbEqual
-	case c.hbMode && len(delivered) < len(full) && bytes.HasPrefix(full, delivered):
-		fail("C16:queued-data-lost-on-close", fmt.Sprintf("reader got %d of %d bytes: messages received before the stream error were dropped when the connection closed", len(delivered), len(full)))
-		return
+	case bytes.HasPrefix(full, delivered):
+	case hbEqual && bytes.HasPrefix(withoutHbEqual, delivered):
+		target = withoutHbEqual
 	default:
 		fail("C16:stream-bytes-differ", fmt.Sprintf("reader got %d bytes that are not the concatenation of the peer's %d message bytes", len(delivered), len(full)))
 		return
 	}
-	// an error is reported only after the data that came with it (and before any later data)
 	if c.hbMode {
+		// the connection closes after the data: every error must come at the end of the data
+		short := -1
 		for _, e := range errs {
-			if e.at != len(full) {
-				fail("C16:error-before-its-data", fmt.Sprintf("error %q reported at stream position %d, the data ends at %d", e.err, e.at, len(full)))
-				return
+			if e.at < len(target) {
+				short = e.at
+				break
 			}
+		}
+		if short < 0 && complete && len(delivered) < len(target) {
+			short = len(delivered)
+		}
+		if short >= 0 && hbEqual && len(target) == len(full) && bytes.HasPrefix(withoutHbEqual, delivered) && short <= len(withoutHbEqual) {
+			target = withoutHbEqual // the swallowed message explains the shortfall (or part of it)
+			if short == len(target) {
+				short = -1
+			}
+		}
+		if short >= 0 {
+			if lastErrData > 0 && short == len(target)-lastErrData {
+				fail("C16:data-arriving-with-error-dropped", fmt.Sprintf("the %d bytes that the stream returned together with its error never reached the reader (closed reported at %d of %d)", lastErrData, short, len(target)))
+			} else {
+				fail("C16:queued-data-lost-on-close", fmt.Sprintf("closed was reported at stream position %d although %d bytes had been received before the stream error", short, len(target)))
+			}
+			return
+		}
+		if len(target) < len(full) {
+			fail(c16SigHB, fmt.Sprintf("an application message byte-equal to the heartbeat payload (%d bytes) is swallowed by the heartbeat receive filter: reader got %d of %d bytes", len(c.hb), len(delivered), len(full)))
 		}
 		return
 	}
+	if complete && len(delivered) < len(target) {
+		fail("C16:stream-bytes-lost", fmt.Sprintf("reader got %d of %d bytes", len(delivered), len(target)))
+		return
+	}
+	// an error is reported only after the data that came with it (and before any later data)
 	for j, e := range errs {
 		want := len(full)
 		if j < len(bounds) {
